@@ -211,7 +211,7 @@ fn small_pool() -> Vec<Vec<Cp>> {
 pub fn generate(tier: &str, seed: u64, out: &mut Out) {
     let mut r = Rng::new(seed ^ 0xC18);
     let thorough = tier == "thorough";
-    let lens = vec![None, Some(7.5), Some(80.0)];
+    let lens = vec![None, Some(7.5), Some(80.0), Some(0.0), Some(-5.0)];
 
     // ---- corpus: a borrowed computation, then an empty list (the repaired D7 scenario)
     run_history(
@@ -283,7 +283,13 @@ pub fn generate(tier: &str, seed: u64, out: &mut Out) {
             };
             pool.push(pts);
         }
-        let lens = vec![None, Some(r.unit() * 300.0), Some(1e-3), Some(r.unit() * 3000.0 + 100.0)];
+        // the length pool spans every case of the length adjustment, including the degenerate
+        // non-positive lengths that collapse the curve to a single point
+        let mut lens = vec![None, Some(r.unit() * 300.0), Some(1e-3), Some(r.unit() * 3000.0 + 100.0)];
+        if r.chance(1, 2) {
+            lens.push(Some(*r.pick(&[0.0, -0.0, -5.0, -1e300, 1e-300, f64::INFINITY])));
+            lens.rotate_right(r.below(3));
+        }
         let nops = if r.chance(1, 3) { r.range(20, 45) } else { r.range(4, 14) } as usize;
         let mut ops = vec![];
         for _ in 0..nops {
